@@ -3,6 +3,7 @@ package envelopep
 import (
 	"bytes"
 	"errors"
+	"fmt"
 	"math/big"
 	"sync/atomic"
 	"testing"
@@ -52,7 +53,7 @@ var c18Fields = []string{"threshold", "envelope-id", "context-hash", "swap-grant
 var forgedDecrypts atomic.Int64
 
 func genC18(t *rapid.T) c18Case {
-	c := c18Case{Mode: rapid.SampledFrom([]string{"ctx", "struct", "struct", "wire", "arbitrary", "forged", "forged"}).Draw(t, "mode")}
+	c := c18Case{Mode: rapid.SampledFrom([]string{"ctx", "ctx", "struct", "struct", "struct", "struct", "wire", "wire", "arbitrary", "arbitrary", "forged", "forged", "forged", "forged", "sweep"}).Draw(t, "mode")}
 	// an openable configuration by construction: every grant names at least one recipient
 	cfg := genCfg(t)
 	cfg.BadIndex = false
@@ -292,6 +293,37 @@ func checkC18(c c18Case) (o vstat.Outcome) {
 			applyStructMut(env, m)
 			o.Classes = append(o.Classes, "field:"+m.Field)
 		}
+	case "sweep":
+		// every single-bit flip of the sealed envelope's encoding: decoding never panics, and what decodes never
+		// unseals to another payload (unsealing is tried for one flip in 29)
+		wire, _ := env.MarshalVT()
+		o.NonTrivial = true
+		phase := len(c.Cfg.Payload) % 29
+		for bit := 0; bit < len(wire)*8; bit++ {
+			w := append([]byte{}, wire...)
+			w[bit/8] ^= 1 << (uint(bit) % 8)
+			e2 := &envelope.Envelope{}
+			var derr error
+			if v := vstat.Guard("Envelope.UnmarshalVT", func() *vstat.Violation { derr = e2.UnmarshalVT(w); return nil }); v != nil {
+				v.Msg = fmt.Sprintf("bit %d of the %d-byte encoding flipped: %s", bit, len(wire), v.Msg)
+				o.V = v
+				return
+			}
+			if derr != nil || bit%29 != phase {
+				continue
+			}
+			if v := vstat.Guard("UnlockEnvelope", func() *vstat.Violation {
+				payload, _, uerr := envelope.UnlockEnvelope(c.Cfg.Ctx, e2, privs)
+				if uerr == nil && payload != nil && !bytes.Equal(payload, c.Cfg.Payload) {
+					return vstat.Viol("different-payload", "bit %d flipped: the envelope unsealed to another payload", bit)
+				}
+				return nil
+			}); v != nil {
+				o.V = v
+				return
+			}
+		}
+		return
 	case "wire", "arbitrary":
 		var wire []byte
 		if c.Mode == "wire" {
